@@ -115,7 +115,7 @@ def ocsp_response(d, name, ca_crt, ca_key, responder_crt, responder_key, about_c
 TSA_EXT = "basicConstraints=critical,CA:FALSE\nkeyUsage=critical,digitalSignature\nextendedKeyUsage=critical,timeStamping\nsubjectKeyIdentifier=hash\nauthorityKeyIdentifier=keyid\n"
 
 
-def tsa_config(d, name, tsa_crt, tsa_key, chain_pem):
+def tsa_config(d, name, tsa_crt, tsa_key, chain_pem, digest="sha256"):
     """an `openssl ts -reply` configuration; returns its path"""
     cfg = os.path.join(d, name + ".tsa.cnf")
     serial = os.path.join(d, name + ".tsaserial")
@@ -129,7 +129,7 @@ crypto_device = builtin
 signer_cert = %s
 certs = %s
 signer_key = %s
-signer_digest = sha256
+signer_digest = %s
 default_policy = 1.2.3.4.1
 digests = sha256, sha384, sha512
 accuracy = secs:1
@@ -137,7 +137,7 @@ ordering = yes
 tsa_name = yes
 ess_cert_id_chain = no
 ess_cert_id_alg = sha256
-""" % (d, serial, tsa_crt, chain_pem, tsa_key))
+""" % (d, serial, tsa_crt, chain_pem, tsa_key, digest))
     return cfg
 
 
